@@ -47,7 +47,8 @@ class TrieStream:
             k = rng.choice(universe) if rng.random() < 0.8 else rand_filter(rng)
             if r < 0.35:
                 val += 1
-                case.append(f"set {hx(k)} {val}")
+                # (now and then a value whose truth value is false: a stored 0 is a value like any other)
+                case.append(f"set {hx(k)} {0 if rng.random() < 0.12 else val}")
             elif r < 0.5:
                 case.append(f"del {hx(k)}")
             elif r < 0.6:
